@@ -24,7 +24,9 @@ Env == /\ Live("env") /\ UNCHANGED stats
 Call == /\ Live("call")
         /\ LET live == { k \in BKeys : s.want[k] # NoSrv }
                downNow == { k \in live : s.want[k] \notin s.up }
-               sus1 == s.sus \cup downNow          \* every endpoint is polled while this call is processed
+               \* every endpoint is polled while this call is processed; a plain single-endpoint channel (stim.single) has no other call
+               \* a failed dial could be left for: "once the endpoint is reachable again the next call succeeds"
+               sus1 == IF "single" \in DOMAIN s.stim /\ s.stim.single THEN downNow ELSE s.sus \cup downNow
                clean == live # {} /\ sus1 = {} IN
            /\ JudgeK(<< <<"C14.EveryCallCompletes", (E.res = "pending") => live = {}>>,
                         <<"C14.DefiniteResult", E.res \in {"ok", "unavailable", "pending"}>>,
